@@ -51,4 +51,104 @@ Proof.
     destruct (IH _ _ _ _ _ ND' G1 E2) as (A & B & C & D). rewrite Same in *. rewrite app_nil_r, cons_of_app, app_length, L1, C. cbn [length].
     repeat split; try assumption; lia.
 Qed.
+(* the same for every result pass (secret integers, then fixed-point numbers, then booleans): a pass f that ties the leaves of one kind
+   (f v = lcval x ;;; ret (Some _)) and leaves the others alone *)
+Theorem res_pass_counts_gen (f : pyval -> Gadgets.G (p:=p) (option pyval)) (isk : pyval -> bool) :
+  (forall v, isk v = false -> f v = ret None) ->
+  (forall v, isk v = true -> exists x w0, f v = (lcval x ;;; ret (Some w0))) ->
+  forall ls (r : regs) (s : gst) r' s' cs, NoDup ls -> guard s = None ->
+  run (conv_pass (p:=p) f ls r) s = (inl r', s', cs) ->
+  let k := length (filter isk (map (rget r) ls)) in
+  npub s' = npub s + Z.of_nat k /\ npriv s' = npriv s /\ length (cons_of cs) = k /\ guard s' = None.
+Proof.
+  intros Hno Hyes. induction ls as [|a ls IH]; intros r s r' s' cs ND Hg R; cbn zeta.
+  - cbn in R. inversion R; subst. cbn. repeat split; try lia; assumption.
+  - inversion ND as [|? ? Hna ND']; subst. cbn [conv_pass] in R. rewrite run_bind in R.
+    destruct (run (f (rget r a)) s) as [[[o|e] s1] c1] eqn:E1; [|discriminate R].
+    destruct (run (conv_pass f ls (match o with Some v => rset r a v | None => r end)) s1) as [[r2 s2] c2] eqn:E2.
+    inversion R; subst.
+    assert (Same : map (rget (match o with Some v => rset r a v | None => r end)) ls = map (rget r) ls).
+    { destruct o; [|reflexivity]. apply map_ext_in. intros l Hl. apply rget_rset_other'. intros ->. contradiction. }
+    cbn [map filter]. destruct (isk (rget r a)) eqn:Ek.
+    + destruct (Hyes _ Ek) as (x & w0 & Hf). rewrite Hf in E1. rewrite run_bind in E1.
+      destruct (run (lcval x) s) as [[[u|e] s0] c0] eqn:E0; [|discriminate E1]. cbn [ret run] in E1. inversion E1; subst.
+      destruct (run_lcval x s u s1 c0 Hg E0) as (P1 & P2 & G1 & L1 & _).
+      destruct (IH _ _ _ _ _ ND' G1 E2) as (A & B & C & D). rewrite Same in *. rewrite app_nil_r, cons_of_app, app_length, L1, C. cbn [length].
+      repeat split; try assumption; lia.
+    + rewrite (Hno _ Ek) in E1. cbn [ret run] in E1. inversion E1; subst. cbn [app].
+      destruct (IH _ _ _ _ _ ND' Hg E2) as (A & B & C & D). repeat split; assumption.
+Qed.
+Definition is_secret_fxp (v : pyval) : bool := match v with PFxp _ _ => true | _ => false end.
+Definition is_secret_bool (v : pyval) : bool := match v with PBool _ _ => true | _ => false end.
+Theorem res_fxp_pass_counts (c : cfg) : forall ls (r : regs) (s : gst) r' s' cs, NoDup ls -> guard s = None ->
+  run (conv_pass (p:=p) res_fxp ls r) s = (inl r', s', cs) ->
+  let k := length (filter is_secret_fxp (map (rget r) ls)) in
+  npub s' = npub s + Z.of_nat k /\ npriv s' = npriv s /\ length (cons_of cs) = k /\ guard s' = None.
+Proof.
+  apply res_pass_counts_gen.
+  - intros v H. destruct v; try reflexivity. discriminate H.
+  - intros v H. destruct v; try discriminate H. eexists. eexists. reflexivity.
+Qed.
+Theorem res_bool_pass_counts (c : cfg) : forall ls (r : regs) (s : gst) r' s' cs, NoDup ls -> guard s = None ->
+  run (conv_pass (p:=p) res_bool ls r) s = (inl r', s', cs) ->
+  let k := length (filter is_secret_bool (map (rget r) ls)) in
+  npub s' = npub s + Z.of_nat k /\ npriv s' = npriv s /\ length (cons_of cs) = k /\ guard s' = None.
+Proof.
+  apply res_pass_counts_gen.
+  - intros v H. destruct v; try reflexivity. discriminate H.
+  - intros v H. destruct v; try discriminate H. eexists. eexists. reflexivity.
+Qed.
+(* ---- the argument passes: one public input per plain int leaf (first pass) and per plain float leaf (second pass), no constraint,
+   no private variable; every other leaf is left alone ---- *)
+Lemma run_pubval h (s : gst) x s' cs : run (pubval (p:=p) (lvl:=false) h) s = (inl x, s', cs) ->
+  npub s' = npub s + 1 /\ npriv s' = npriv s /\ guard s' = guard s /\ cons_of cs = [].
+Proof.
+  unfold pubval. cbn [bind run]. destruct (vscopedb _ _ h); [|discriminate]. intros R. inversion R; subst.
+  cbn [npub npriv guard upd_counters cons_of flat_map app]. repeat split; reflexivity.
+Qed.
+Theorem arg_pass_counts_gen (f : pyval -> Gadgets.G (p:=p) (option pyval)) (isk : pyval -> bool) :
+  (forall v, isk v = false -> f v = ret None) ->
+  (forall v, isk v = true -> exists h w0, f v = (x <- pubval h ;; ret (Some (w0 x)))) ->
+  forall ls (r : regs) (s : gst) r' s' cs, NoDup ls ->
+  run (conv_pass (p:=p) f ls r) s = (inl r', s', cs) ->
+  let k := length (filter isk (map (rget r) ls)) in
+  npub s' = npub s + Z.of_nat k /\ npriv s' = npriv s /\ cons_of cs = [] /\ guard s' = guard s.
+Proof.
+  intros Hno Hyes. induction ls as [|a ls IH]; intros r s r' s' cs ND R; cbn zeta.
+  - cbn in R. inversion R; subst. cbn. repeat split; try lia; reflexivity.
+  - inversion ND as [|? ? Hna ND']; subst. cbn [conv_pass] in R. rewrite run_bind in R.
+    destruct (run (f (rget r a)) s) as [[[o|e] s1] c1] eqn:E1; [|discriminate R].
+    destruct (run (conv_pass f ls (match o with Some v => rset r a v | None => r end)) s1) as [[r2 s2] c2] eqn:E2.
+    inversion R; subst.
+    assert (Same : map (rget (match o with Some v => rset r a v | None => r end)) ls = map (rget r) ls).
+    { destruct o; [|reflexivity]. apply map_ext_in. intros l Hl. apply rget_rset_other'. intros ->. contradiction. }
+    cbn [map filter]. destruct (isk (rget r a)) eqn:Ek.
+    + destruct (Hyes _ Ek) as (h & w0 & Hf). rewrite Hf in E1. rewrite run_bind in E1.
+      destruct (run (pubval h) s) as [[[u|e] s0] c0] eqn:E0; [|discriminate E1]. cbn [ret run] in E1. inversion E1; subst.
+      destruct (run_pubval h s u s1 c0 E0) as (P1 & P2 & G1 & L1).
+      destruct (IH _ _ _ _ _ ND' E2) as (A & B & C & D). rewrite Same in *. rewrite app_nil_r, cons_of_app, L1, C. cbn [length app].
+      repeat split; try reflexivity; try congruence; lia.
+    + rewrite (Hno _ Ek) in E1. cbn [ret run] in E1. inversion E1; subst. cbn [app].
+      destruct (IH _ _ _ _ _ ND' E2) as (A & B & C & D). repeat split; assumption.
+Qed.
+Definition is_plain_int (v : pyval) : bool := match v with PInt _ => true | _ => false end.
+Definition is_plain_float (v : pyval) : bool := match v with PFloat _ _ => true | _ => false end.
+Theorem arg_int_pass_counts : forall ls (r : regs) (s : gst) r' s' cs, NoDup ls ->
+  run (conv_pass (p:=p) arg_int ls r) s = (inl r', s', cs) ->
+  let k := length (filter is_plain_int (map (rget r) ls)) in
+  npub s' = npub s + Z.of_nat k /\ npriv s' = npriv s /\ cons_of cs = [] /\ guard s' = guard s.
+Proof.
+  apply arg_pass_counts_gen.
+  - intros v H. destruct v; try reflexivity. discriminate H.
+  - intros v H. destruct v; try discriminate H. exists (VConst z), (fun x => PLC x). reflexivity.
+Qed.
+Theorem arg_float_pass_counts (c : cfg) : forall ls (r : regs) (s : gst) r' s' cs, NoDup ls ->
+  run (conv_pass (p:=p) (arg_float c) ls r) s = (inl r', s', cs) ->
+  let k := length (filter is_plain_float (map (rget r) ls)) in
+  npub s' = npub s + Z.of_nat k /\ npriv s' = npriv s /\ cons_of cs = [] /\ guard s' = guard s.
+Proof.
+  apply arg_pass_counts_gen.
+  - intros v H. destruct v; try reflexivity. discriminate H.
+  - intros v H. destruct v; try discriminate H. exists (VConst (scale_float c m e)), (fun x => PFxp 0 x). reflexivity.
+Qed.
 End SC.
